@@ -3,8 +3,8 @@
    where the code has #[cfg(feature = ..)] in paths that run outside completion mode: the docgen
    switch of the splitter; (the autocomplete switch of run_inner disappeared with the fix: commit). *)
 From Coq Require Import List NArith.
-From BpafModel Require Import Console Eval.
-From BpafLemmas Require Import FeatLaws.
+From BpafModel Require Import Console Eval CompEval.
+From BpafLemmas Require Import FeatLaws CompInert.
 Import ListNotations.
 
 (* Parsing: the outcome of run_inner does not depend on the feature record, for every parser,
@@ -13,6 +13,32 @@ Theorem C20_run_inner :
   forall f1 f2 env o name argv, run_inner f1 env o name argv = run_inner f2 env o name argv.
 Proof. exact run_inner_features_irrelevant. Qed.
 Print Assumptions C20_run_inner.
+
+(* The feature-gated bookkeeping threaded through every parser: Model/CompEval.v is the evaluator of a build WITH the
+   `autocomplete` feature (state = ledger + `comp: Option<Complete>`; every cfg(feature = "autocomplete") statement of
+   the eval paths; parsers may carry `complete(f)` / `complete_shell(op)` wrappers).  Without a completion request
+   (`comp = None`) it computes, for EVERY parser, state and environment, exactly what the evaluator without the
+   feature computes on the parser with the wrappers erased, and leaves `comp = None`. *)
+Theorem C20_bookkeeping_inert_every_parser :
+  forall env docgen p s,
+    ceval env docgen p (s, None) = (fst (eval env (erase p) s), (snd (eval env (erase p) s), None)).
+Proof. exact ceval_inert. Qed.
+Print Assumptions C20_bookkeeping_inert_every_parser.
+
+Theorem C20_bookkeeping_inert_every_command_level :
+  forall env docgen o s,
+    crun_sub env docgen o (s, None) = (fst (run_sub env (erase_o o) s), (snd (run_sub env (erase_o o) s), None)).
+Proof. exact crun_sub_inert. Qed.
+Print Assumptions C20_bookkeeping_inert_every_command_level.
+
+(* run_inner: for every argument vector that does not contain the completion marker (no item `--bpaf-complete-rev=..`,
+   no Args::set_comp) the build with `autocomplete` gives the outcome of the build without it *)
+Theorem C20_autocomplete_does_not_change_parsing :
+  forall feat env o name argv,
+    (forall w, In w argv -> marker_rev w = None) ->
+    c_run_inner feat env o name argv None = run_inner feat env (erase_o o) name argv.
+Proof. exact c_run_inner_no_request. Qed.
+Print Assumptions C20_autocomplete_does_not_change_parsing.
 
 (* Help and error text: with and without `docgen` the splitter produces the same chunks for every
    text that contains no fenced code block ("\n\n```"), hence the same console rendering at every
@@ -39,3 +65,11 @@ Proof.
   intros pre suf E.
   destruct pre as [|a [|b [|c [|d [|e [|f pre]]]]]]; cbn in E; inversion E; subst; try reflexivity.
 Qed.
+
+(* non-vacuity: a parser with a completer on an argument, a line without a marker -- both builds return the value *)
+Example C20_example_completer :
+  let o := XOptions (XComplete (XArg (mkNamed [110%N] [] [] None) [78%N] TyString false) (completer_menu 0%N) None) default_info in
+  let argv := [[45; 110]%N; [97]%N] in
+  c_run_inner (mkFeat true true false) (fun _ => None) o None argv None = OutOk (VBytes [97%N]) /\
+  run_inner (mkFeat false false false) (fun _ => None) (erase_o o) None argv = OutOk (VBytes [97%N]).
+Proof. vm_compute. split; reflexivity. Qed.
